@@ -45,3 +45,28 @@ def classify(case, result):
         c = int(t[1][2:])
         kind = "dx9-cube" if c & 0x200 else ("dx9-vol" if c & 0x200000 else "dx9-tex")
     return f"{kind} mips={t[5]} {t[7]}"
+
+
+_REJ = {"Cancelled", "TooManySurfaces", "UnexpectedSurfaceSize", "InvalidSize"}
+
+
+def equal(a, b):
+    """The property names the grounds for rejection but not which one is reported when several apply to one call
+    (a pre-cancelled write that is also out of order or of the wrong size). The model reports what the code reports
+    today; a different precedence is not a violation. Tolerated therefore, per call: `Cancelled` on one side where the
+    other side names another rejection, with the same encoder state after the call. The oracle accepts only grounds
+    that do apply, so a wrong variant for a call with a single ground is still reported."""
+    if a == b:
+        return True
+    pa, pb = a.split(" | "), b.split(" | ")
+    if len(pa) != len(pb):
+        return False
+    for x, y in zip(pa, pb):
+        if x == y:
+            continue
+        tx, ty = x.split(" ", 1), y.split(" ", 1)
+        if len(tx) == 2 and len(ty) == 2 and tx[1] == ty[1] and tx[0] in _REJ and ty[0] in _REJ \
+                and "Cancelled" in (tx[0], ty[0]):
+            continue
+        return False
+    return True
